@@ -401,6 +401,7 @@ package desync
 //@ spec func segOK(g IndexSegment) bool = 0 <= g.first && g.first <= g.last && g.last < len(g.index.Chunks) && offsetsBounded(g.index.Chunks)
 //@ ghost var $tfit bool
 //@ ghost var $tseen bool
+//@ ghost var $verr error
 //@ func AssembleFile
 //@   prop C07 C01
 //@   safety none
@@ -438,6 +439,12 @@ package desync
 //@   ghost@entry $eof = false
 //@   ghost@loop3.exit $eof = true
 //@   ensures r1 == nil ==> $eof
+//# F29 (the re-plan loop ends, also after a cancellation): a new plan is made only after a validation failure that is
+//# not an interruption. For every such failure Plan.Validate has marked a seed invalid (its contract), so each new plan
+//# has one usable seed less; an interrupted validation marks nothing and must end the function.
+//@   ghost@entry $verr = nil
+//@   ghost@after:Validate $verr = $r0
+//@   oncall Rewind: requires @C01,C07 $verr != nil && !is($verr, Interrupted)
 
 //@ ghost var $invalidated bool
 //@ func (p Plan) Validate
